@@ -4,6 +4,8 @@ import numpy as np
 
 def limbs(n):
     n = int(n)
+    if n < 0:
+        return ["negative", str(n)]
     out = []
     while n:
         out.append(n % 10000)
